@@ -182,7 +182,7 @@ func c20R1(p *core.Program, r *core.Report, infl *core.Func) {
 			_ = lb
 		}
 		x, op, c, ok := cmpConst(info, a.Cond)
-		if ok && a.Val && op == token.GEQ && c >= 3 {
+		if ok && a.Val && ((op == token.GEQ && c >= 3) || (op == token.GTR && c >= 2) || (op == token.EQL && c >= 3)) {
 			if call, isCall := ast.Unparen(x).(*ast.CallExpr); isCall && core.CalleeName(info, call) == "builtin.len" && core.VarOf(info, call.Args[0]) == res {
 				guard = true
 			}
